@@ -132,6 +132,8 @@ type analysis struct {
 	// Locks: lock discipline of session.go (only when the root package is in scope)
 	Locks    []lockFact
 	HasLocks bool
+	// Gos: every go statement in scope (gofacts.go)
+	Gos []goFact
 }
 
 func recvName(fd *ast.FuncDecl) string {
@@ -184,6 +186,7 @@ func analyseScope(repo string, scope map[string]func(file string) bool, allowTex
 			an.Locks = lockFactsOf(l, only("session.go"), fset)
 			an.HasLocks = true
 		}
+		an.Gos = append(an.Gos, goFactsOf(l, scope[rel], fset)...)
 		pkgName := l.Pkg.Name()
 		for i, file := range l.Files {
 			if filter != nil && !filter(l.Names[i]) {
@@ -242,6 +245,7 @@ func Facts(repo string) (string, error) {
 		b.WriteString("def skeletons : Option (List (String × Stmt)) := none\n")
 		b.WriteString("def trustedSites : Nat := 0\n")
 		b.WriteString(leanLockFacts(nil, err))
+		b.WriteString(leanGoFacts(nil, false))
 		b.WriteString("end XmppModel.Generated.C09\n")
 		return b.String(), nil
 	}
@@ -272,6 +276,7 @@ func Facts(repo string) (string, error) {
 	} else {
 		b.WriteString(leanLockFacts(nil, fmt.Errorf("session.go not in scope")))
 	}
+	b.WriteString(leanGoFacts(an.Gos, true))
 	b.WriteString("\n/-! Sites:\n")
 	for _, s := range an.Sites {
 		if s.Kind == "loop" {
